@@ -16,6 +16,8 @@ claimed={
              ref="§3 C11", technique=T+"; bounded exhaustive execution for Roots()"),
  "C13": dict(text="Stated parts: permutation invariance of the hash (call-site precondition of sort.Slice checked on the real comparator bodies), run-to-run determinism (no order-dependent map range), freshness of every node DupAttribute / ValidationExpr.Dup / MetaExpr.Dup allocate and their frames (nothing pre-existing is written). DupType's frame is assumed (trusted) for the mutual recursion. No global injectivity of the hash, no termination.",
              ref="§3 C13", technique=T),
+ "C14": dict(text="Schema side only: the JSON-schema keywords written by initAttributeValidation (OpenAPI 2) and by the validation tail of schemafy (OpenAPI 3) mirror the design's validation keyword for keyword (enum, format, pattern, inclusive/exclusive bounds with the same pointer, i.e. the same number and sense) and length bounds land on the keyword that applies to the kind of value. That the server accepts exactly the documented inputs (C04 side) is not decided.",
+             ref="§3 C14", technique=T),
  "C15": dict(text="Encoder/decoder agreement through the Content-Type header actually set, JSON fall-back, non-nil encoder, request decoder selection and 415 chain, proved for all header/context values against an uninterpreted mime.ParseMediaType with audited axioms.",
              ref="§3 C15", technique=T),
  "C16": dict(text="goa's layer of the router: every value stored by Vars is the captured segment decoded exactly once under its registered name, wildcard rewrite and ResolvePattern are inverse (string-theory lemma), Handle registers the rewritten pattern, the not-found handler writes one 404 fault body. chi's dispatch is an assumed contract.",
